@@ -1863,6 +1863,8 @@ class Evaluator:
             return Fn('builtin', f"method.{attr}", self_val=base)
         if attr == 'T':
             return Term('T', (base,), kind=getattr(base, 'kind', 'unknown'))
+        if isinstance(base, Tup) and attr in ('index', 'count'):
+            return Fn('builtin', f"method.{attr}", self_val=base)
         return Term('attr', (base, Const(attr)))
 
     def eval_Tuple(self, e, st):
@@ -3980,7 +3982,17 @@ def m_startswith(ev, recv, pos, kw, st, node):
     return P('startswith', recv, *pos)
 
 
-METHOD_HANDLERS = {'get': m_get, 'sum': m_sum, 'copy': m_copy, 'min': m_reduce('Min'), 'max': m_reduce('Max'), 'mean': m_reduce('Mean'),
+def m_index(ev, recv, pos, kw, st, node):
+    """position of a literal in a literal tuple / list (ValueError when absent)"""
+    if isinstance(recv, Tup) and len(pos) == 1 and not kw and isinstance(pos[0], Const) and all(isinstance(i_, Const) for i_ in recv.items):
+        for k_, i_ in enumerate(recv.items):
+            if type(i_.v) is type(pos[0].v) and i_.v == pos[0].v:
+                return Num(C(k_))
+        raise _PyRaise('ValueError')
+    return None
+
+
+METHOD_HANDLERS = {'index': m_index, 'get': m_get, 'sum': m_sum, 'copy': m_copy, 'min': m_reduce('Min'), 'max': m_reduce('Max'), 'mean': m_reduce('Mean'),
                    'std': m_std, 'astype': m_astype, 'flatten': m_flatten, 'reshape': m_reshape, 'tolist': m_tolist, 'ravel': m_flatten, 'item': m_item,
                    'take': m_take, 'append': m_append, 'extend': m_extend, 'replace': m_replace,
                    'startswith': m_startswith}
